@@ -290,7 +290,7 @@ def cache_history(sym, op, n0, H, cache, bs):
 BOUNDS = {
     'quick': 'part 1: every sort-backed operator over n in [0,3] rows with None|int keys; buffersize in {None,1..4} as argument '
              'or through petl.config.sort_buffersize; cache flag; tempdir set/unset; presorted=True on inputs assumed sorted '
-             '(one- and two-input operators, two-input: 2x2); two passes.  part 2: histories of H=4 symbolic steps over '
+             '(one- and two-input operators, two-input: 2x2, rows of the second input as lists or tuples); two passes.  part 2: histories of H=4 symbolic steps over '
              '{full pass, partial pass of 1..2 rows, edit the source}, cache in {T,F}, buffersize in {None,1}, 12 operators',
     'thorough': 'part 1 with n in [0,4] and mixed keys; part 2 with H=6',
 }
